@@ -116,7 +116,7 @@ class Ctx:
 
     # ---------------------------------------------------------------- TLC plumbing
     def _tlc_cmd(self, module, cfg, workers, metadir, xmx='3g', extra=()):
-        return ['java', '-XX:+UseParallelGC', f'-Xmx{xmx}', '-cp', TLA_CP, 'tlc2.TLC',
+        return ['java', '-XX:+UseParallelGC', f'-Xmx{xmx}', '-Xss64m', '-cp', TLA_CP, 'tlc2.TLC',
                 '-workers', str(workers), '-metadir', metadir, '-noGenerateSpecTE',
                 '-config', cfg, *extra, module]
 
